@@ -6,6 +6,7 @@ mod props;
 mod report;
 mod seqprop;
 mod seqrun;
+mod shimrun;
 mod world;
 
 fn usage() -> ! {
@@ -41,6 +42,14 @@ fn main() {
                     world::install_seq_hooks();
                     props::c03::run(tier)
                 }
+                "C15" => {
+                    world::install_seq_hooks();
+                    props::c15::run(tier)
+                }
+                "C02" => {
+                    world::install_seq_hooks();
+                    props::c02::run(tier)
+                }
                 other => {
                     eprintln!("unknown property {other}");
                     2
@@ -73,6 +82,14 @@ fn main() {
                     world::install_seq_hooks();
                     props::c03::replay(&v)
                 }
+                "C15" => {
+                    world::install_seq_hooks();
+                    props::c15::replay(&v)
+                }
+                "C02" => {
+                    world::install_seq_hooks();
+                    props::c02::replay(&v)
+                }
                 other => {
                     eprintln!("unknown property {other}");
                     2
@@ -80,6 +97,10 @@ fn main() {
             };
             explore::cleanup_scratch();
             r
+        }
+        "drv" => {
+            world::install_seq_hooks();
+            shimrun::driver_main(&args[2..])
         }
         "bench" => {
             world::install_seq_hooks();
